@@ -173,7 +173,10 @@ class Engine(
 
     def transfer(self, target: Relation, payload: Any | None = None) -> Select:
         # Docstring inherited.
-        return Select.apply_skip(super().transfer(target, payload))
+        # The base class returns the target itself (already conformed, with
+        # its Select) when no transfer is needed; conform rather than always
+        # adding a new Select so that case returns it unchanged.
+        return self.conform(super().transfer(target, payload))
 
     def make_doomed_relation(
         self, columns: Set[ColumnTag], messages: Sequence[str], name: str = "0"
